@@ -319,7 +319,7 @@ func (a *Act) intrinsic(name string, fv FuncV, args []Value) (Value, bool) {
 				in.lockHist = map[string]int{}
 			}
 			in.lockHist[k]++
-			if hook := in.harnessPkg.Func("verifOnLock"); hook != nil && !in.inHook && in.lockHist[k] >= 2 {
+			if hook := in.harnessPkg.Func("verifOnLock"); hook != nil && !in.inHook && in.lockHist[k] >= in.lockHookFrom() {
 				in.inHook = true
 				a.callFunc(FuncV{fn: hook}, nil)
 				in.inHook = false
@@ -549,6 +549,11 @@ func (a *Act) intrinsic(name string, fv FuncV, args []Value) (Value, bool) {
 		return nil, true
 	case "verifFairSelect":
 		in.fairSelect = args[0].(*Term).IsTrue()
+		return nil, true
+	case "verifLockHookFrom":
+		// P3 arming: run the verifOnLock hook from the n-th acquisition of a mutex on (default 2:
+		// re-acquisitions only; 1: also the first acquisition - check-then-lock patterns)
+		in.lockHookMin = int(args[0].(*Term).val)
 		return nil, true
 	case "verifResetLocks":
 		// forget earlier acquisitions: the next Lock/RLock of each mutex is "the first" again (P3 arming)
@@ -968,4 +973,11 @@ func mapStrLeavesTerm(t *Term, f func(string) *Term) (*Term, bool) {
 		return Ite(t.args[0], a, b), true
 	}
 	return nil, false
+}
+
+func (in *Interp) lockHookFrom() int {
+	if in.lockHookMin > 0 {
+		return in.lockHookMin
+	}
+	return 2
 }
